@@ -90,7 +90,7 @@ Lemma ftl_loop_spec names ci co ornt :
   match ftl_loop names ci co ornt with
   | Ok None => tl_none names ci co ornt
   | Ok (Some r) => tl_sound ci co ornt r /\ In (snd r) names
-  | Err e => e = ETimeMismatch \/ e = ETimeCross \/ e = ECrash \/ e = EOutside
+  | Err e => e = ETimeMismatch \/ e = ETimeCross \/ e = EOutside
   end.
 Proof.
   induction names as [|name rest IH]; simpl.
@@ -112,7 +112,9 @@ Proof.
            apply tl_sound_intro; rewrite ?Hk3; auto; try lia.
            ++ discriminate.
            ++ intros _ k2' Hk2'. assert (k2' = k2) by congruence. subst. exact Ej.
-      * destruct (in2out ornt (k + 3)) as [c|] eqn:Ec; [|tauto].
+      * destruct (in2out ornt (k + 3)) as [c|] eqn:Ec;
+          [|simpl; split; [|now left]; apply tl_sound_intro; rewrite ?Hk3; auto; try lia;
+            [discriminate | intros _ k2' Hk2'; congruence]].
         destruct (Nat.ltb c 3 || Nat.leb (length co) (c - 3)) eqn:Eb; [tauto|].
         apply orb_false_iff in Eb. destruct Eb as [Eb1 Eb2].
         apply Nat.ltb_ge in Eb1. apply Nat.leb_gt in Eb2.
